@@ -215,10 +215,15 @@ class Built:
 
 def to_linear(out, semiring):
     """Compiled output (B, O, K) in the given semiring -> complex numpy array, linear domain."""
-    o = out.detach()
+    o = out.detach().to(torch.complex128)
     if semiring != "sum-product":
-        o = torch.exp(o)
-    return o.to(torch.complex128).numpy()
+        # exp of a log-space value; a real part of -inf with a finite phase is an exact zero
+        # (torch.exp(-inf + i*theta) evaluates to nan for complex tensors)
+        mag = torch.exp(o.real)
+        phase = torch.polar(torch.ones_like(o.real), o.imag)
+        zero = (mag == 0) & torch.isfinite(o.imag)
+        o = torch.where(zero, torch.zeros_like(phase), mag.to(torch.complex128) * phase)
+    return o.numpy()
 
 
 def expected_array(expect, rows_idx):
